@@ -183,7 +183,7 @@ impl<T: Sync + Send + 'static> Worker<T> {
             point(site::RUN_AFTER_SORT, 0);
             #[cfg(feature = "verif-hooks")]
             point(site::RUN_BEFORE_NOTIFY_READ, 0);
-            if self.should_notify.load(atomic::Ordering::Relaxed) {
+            if self.should_notify.swap(false, atomic::Ordering::Relaxed) {
                 (self.notify)();
             }
             #[cfg(feature = "verif-hooks")]
@@ -272,7 +272,7 @@ impl<T: Sync + Send + 'static> Worker<T> {
                 .truncate(self.matches.len() - take(unmatched.get_mut()) as usize);
             #[cfg(feature = "verif-hooks")]
             point(site::RUN_BEFORE_NOTIFY_READ, 0);
-            if self.should_notify.load(atomic::Ordering::Relaxed) {
+            if self.should_notify.swap(false, atomic::Ordering::Relaxed) {
                 (self.notify)();
             }
             #[cfg(feature = "verif-hooks")]
